@@ -507,6 +507,8 @@ Proof.
 Qed.
 
 
+Arguments N.eqb : simpl never.
+
 Theorem reach_next_push_notifies c i p its sched v : valid_cfg c i ->
   let s := reach c i p its sched in
   cp s = CIdle -> size s = 0 -> notifs s = 0 -> pp s = PPush1 v ->
